@@ -279,6 +279,20 @@ func (e *entryInfo) checkOne(what string, seq string) error {
 					}
 				}
 			}
+		case "esc-marker":
+			// seq = ESC + report marker (bracketed paste start / end, focus) + a key: a report carries
+			// no modifiers, so the stray ESC in front of it is used up by the report and the key that
+			// follows decodes exactly as without the ESC
+			in2, _ := e.decoder()
+			want, _ := decodeAll(in2, [][]byte{[]byte(seq[1:])})
+			if left != 0 || !inref.Equal(evs, want) {
+				return fmt.Errorf("%s: %q decodes to %s (%d left); without the leading ESC it decodes to %s - the Alt prefix must end at the report", e.Name, seq, inref.Show(evs), left, inref.Show(want))
+			}
+			in3, _ := e.decoder()
+			got, l3 := decodeAll(in3, [][]byte{[]byte(seq[:1]), []byte(seq[1:])})
+			if l3 != 0 || !inref.Equal(got, want) {
+				return fmt.Errorf("%s: %q arriving as ESC and then the rest decodes to %s (%d left); without the leading ESC it decodes to %s", e.Name, seq, inref.Show(got), l3, inref.Show(want))
+			}
 		case "after-esc-esc":
 			// ESC ESC + expiry is one Esc key (with or without Alt - the statement
 			// leaves that open), and the Alt prefix must not outlive it: the key
@@ -405,6 +419,14 @@ func sweepEntries(t *testing.T) {
 			}
 		}
 		run("after-esc-esc", "a", true)
+		for _, m := range ts {
+			inm, _ := e.decoder()
+			if base, l := decodeAll(inm, [][]byte{[]byte(m)}); l == 0 && len(base) == 1 && base[0].Kind != "key" && !isPrefixOfDefined(e, "\x1b"+m) {
+				for _, k := range []string{"a", "\r", "\x01", "é"} {
+					run("esc-marker", "\x1b"+m+k, true)
+				}
+			}
+		}
 		// prefix-freeness of the built table
 		var perr error
 		for _, a := range ts {
